@@ -11,6 +11,8 @@ EXPLANATION = ("Exactness of Signature::verify against R_ps by value reconstruct
 
 def run(rep):
     prog = rep.prog
+    from .c15 import wire_group_membership
+    wire_group_membership(rep)
     rep.rule("verify-exact", "Signature::verify == (sigma1 != identity) AND e(sigma1, X~ + <Y~,m>) e(sigma2, -g~) = 1, nothing weaker, nothing stronger")
     rep.rule("well-formed", "is_well_formed == (sigma1 != identity); the decode-time validator checks the same atom")
     rep.rule("producer-term", "value term of each signature producer equals its reference term (R_sign, R_rand, R_blind, R_bsign, R_unblind)")
